@@ -69,26 +69,24 @@ theorem isKeyword_upper_spelling (w : Text) (hw : ∀ c ∈ w, c < 128) :
 /-- `[$#\w]` -/
 def wordTailSet : CpSet := ⟨(35, 36) :: Gen.wordSet.ranges⟩
 
-theorem atom18_word : Gen.atom18 = Gen.wordSet := by decide +kernel
-theorem atom70_wordTail : Gen.atom70 = wordTailSet := by decide +kernel
+/-- the generic word rule `\w[$#\w]*` with action `PROCESS_AS_KEYWORD` -/
+def wordRule : Rule := ⟨.cat (.set Gen.wordSet) (.rep 0 none true (.set wordTailSet)), .kw⟩
 
-/-- the generic word rule is `\w[$#\w]*` (rule 47, action `PROCESS_AS_KEYWORD`) -/
-theorem re47_eq : Gen.re47 = .cat (.set Gen.wordSet) (.rep 0 none true (.set wordTailSet)) := by
-  rw [← atom18_word, ← atom70_wordTail]; rfl
-
-theorem rule47_act : Gen.rule47.act = .kw := rfl
+/-- table obligation: the word rule is in the generated table (located by content) -/
+theorem word_rule_in_table : defaultCfg.rules.contains wordRule = true := by decide +kernel
 
 /-- **maximal munch**: at a `\w` character followed by a run of `[$#\w]` characters and then a character outside `[$#\w]` (or the end),
 the first derivation of the word rule ends at the end of the run -/
 theorem word_rule_maximal_munch (E : Env) (p : Nat) (c0 : Cp) (run tail : List Cp)
     (h0 : E.s.toList.drop p = c0 :: (run ++ tail)) (hc0 : Gen.wordSet.mem c0 = true)
     (hrun : ∀ x ∈ run, wordTailSet.mem x = true) (htail : ∀ x, tail.head? = some x → wordTailSet.mem x = false) :
-    ∃ more, derivs E Gen.re47 ⟨p, []⟩ = ⟨p + 1 + run.length, []⟩ :: more := by
+    ∃ more, derivs E wordRule.re ⟨p, []⟩ = ⟨p + 1 + run.length, []⟩ :: more := by
   have h1 : E.s.toList.drop (p + 1) = run ++ tail := drop_succ_of_cons _ _ _ _ h0
   have hlen := size_of_drop E (p + 1) _ h1
   obtain ⟨more, hm⟩ := greedy_class_head E wordTailSet tail htail run ⟨p + 1, []⟩ (E.s.size - (p + 1) + 1) h1 hrun
     (by simp at hlen; omega)
-  rw [re47_eq, derivs_cat_set_ok E _ _ ⟨p, []⟩ c0 _ h0 hc0, derivs_rep, hm]
+  show ∃ more, derivs E (.cat (.set Gen.wordSet) (.rep 0 none true (.set wordTailSet))) ⟨p, []⟩ = _
+  rw [derivs_cat_set_ok E _ _ ⟨p, []⟩ c0 _ h0 hc0, derivs_rep, hm]
   exact ⟨more, rfl⟩
 
 /-! ## (c) words before a delimiter -/
@@ -102,59 +100,111 @@ def wordShape : Text → Bool
   | [] => false
 
 def wordK (w : Text) : WCtx :=
-  { w := Array.mk w, excl := [cs 40, cs 46, Gen.spaceSetRe, wordTailSet], prevExcl := [cs 46], word := Gen.wordSet }
+  { w := Array.mk w, excl := [cs 40, cs 46, Gen.spaceSet, wordTailSet], prevExcl := [cs 46], word := Gen.wordSet }
 
 /-- which of the rules can start at `c0`, as a bit mask (bit i = rule i is not `dead` on `c0`) -/
 def maskOf (c0 : Cp) : List Rule → Nat
   | [] => 0
   | r :: rs => 2 * maskOf c0 rs + (if start c0 r.re == .dead then 0 else 1)
 
-/-- the identifier rules with a look-around (`[A-Z]\w*(?=\s*\.)`, `(?<=\.)[A-Z]\w*`, `[A-Z]\w*(?=\()`) are excluded by a general argument -/
-def skipIdx : List Nat := [18, 19, 20]
+/-- `\s*\.` and `\(`: the two look-aheads of the identifier rules -/
+def lookDotRe : Re := .cat (.rep 0 none true (.set Gen.spaceSet)) (.set (cs 46))
+def lookParenRe : Re := .set (cs 40)
 
-/-- every rule is dead on the first character, or is one of the three look-around identifier rules, or has no derivation on the window -/
+/-- `A\w*(?=\s*\.)` / `A\w*(?=\()` for any class `A` -/
+def identLookShape : Re → Bool
+  | .cat (.set _) (.cat (.rep 0 none true (.set W)) (.look true false 0 L)) =>
+    W == Gen.wordSet && (L == lookDotRe || L == lookParenRe)
+  | _ => false
+
+/-- `(?<=\.)…` -/
+def behindDotShape : Re → Bool
+  | .cat (.look false false 1 (.set S)) _ => S == cs 46
+  | _ => false
+
+/-- the identifier rules with a look-around are excluded by a general argument, recognised by shape -/
+def skipShape (r : Re) : Bool := identLookShape r || behindDotShape r
+
+/-- which rules have a skip shape, as a bit mask (independent of the word) -/
+def skipMask : List Rule → Nat
+  | [] => 0
+  | r :: rs => 2 * skipMask rs + (if skipShape r.re then 1 else 0)
+
+/-- walk the table up to the word rule: every rule met is dead on the first character, or has a skip shape, or has no derivation on the window -/
 def checkFrom (K : WCtx) : List Rule → Nat → Nat → Bool
-  | [], _, _ => true
-  | r :: rs, i, m => (m % 2 == 0 || skipIdx.contains i || aover K r.re 0 == some []) && checkFrom K rs (i + 1) (m / 2)
+  | [], _, _ => false
+  | r :: rs, m, k =>
+    if r == wordRule then true
+    else (m % 2 == 0 || k % 2 == 1 || aover K r.re 0 == some []) && checkFrom K rs (m / 2) (k / 2)
 
 /-- the certificate: `w` is a word and no rule before the word rule can match on `w` + delimiter -/
 def wordCert (w : Text) : Bool :=
   wordShape w &&
   (match w with
-   | c0 :: _ => checkFrom (wordK w) (Gen.rules.take 47) 0 (maskOf c0 (Gen.rules.take 47))
+   | c0 :: _ => checkFrom (wordK w) defaultCfg.rules (maskOf c0 defaultCfg.rules) (skipMask defaultCfg.rules)
    | [] => false)
 
-theorem checkFrom_spec (K : WCtx) (c0 : Cp) : ∀ (rs : List Rule) (i : Nat), checkFrom K rs i (maskOf c0 rs) = true →
-    ∀ j r, rs[j]? = some r → start c0 r.re = .dead ∨ (i + j) ∈ skipIdx ∨ aover K r.re 0 = some [] := by
+theorem checkFrom_spec (K : WCtx) (c0 : Cp) : ∀ (rs : List Rule), checkFrom K rs (maskOf c0 rs) (skipMask rs) = true →
+    ∃ front back, rs = front ++ wordRule :: back ∧
+      ∀ r ∈ front, start c0 r.re = .dead ∨ skipShape r.re = true ∨ aover K r.re 0 = some [] := by
   intro rs
   induction rs with
-  | nil => intro i _ j r h; simp at h
+  | nil => intro h; simp [checkFrom] at h
   | cons x xs ih =>
-    intro i h j r hj
-    simp only [checkFrom, maskOf, Bool.and_eq_true, Bool.or_eq_true, beq_iff_eq] at h
-    obtain ⟨h1, h2⟩ := h
-    have hdiv : (2 * maskOf c0 xs + (if start c0 x.re = .dead then 0 else 1)) / 2 = maskOf c0 xs := by
-      split <;> omega
-    rw [hdiv] at h2
-    cases j with
-    | zero =>
-      simp only [List.getElem?_cons_zero, Option.some.injEq] at hj
-      subst hj
-      rcases h1 with (h1 | h1) | h1
-      · left
-        by_cases hd : start c0 x.re = .dead
-        · exact hd
-        · rw [if_neg hd] at h1
-          omega
-      · right; left; simpa using h1
-      · right; right; exact h1
-    | succ j =>
-      simp only [List.getElem?_cons_succ] at hj
-      have := ih (i + 1) h2 j r hj
-      have e : i + 1 + j = i + (j + 1) := by omega
-      rw [e] at this; exact this
+    intro h
+    simp only [checkFrom, maskOf, skipMask] at h
+    split at h
+    · rename_i hx
+      have : x = wordRule := by simpa using hx
+      subst this
+      exact ⟨[], xs, rfl, by simp⟩
+    · simp only [Bool.and_eq_true, Bool.or_eq_true, beq_iff_eq] at h
+      obtain ⟨h1, h2⟩ := h
+      have hdiv : (2 * maskOf c0 xs + (if start c0 x.re = .dead then 0 else 1)) / 2 = maskOf c0 xs := by
+        split <;> omega
+      have hdiv2 : (2 * skipMask xs + (if skipShape x.re = true then 1 else 0)) / 2 = skipMask xs := by
+        split <;> omega
+      rw [hdiv, hdiv2] at h2
+      obtain ⟨front, back, hxs, hf⟩ := ih h2
+      refine ⟨x :: front, back, by simp [hxs], ?_⟩
+      intro r hr
+      simp only [List.mem_cons] at hr
+      rcases hr with rfl | hr
+      · rcases h1 with (h1 | h1) | h1
+        · left
+          by_cases hd : start c0 r.re = .dead
+          · exact hd
+          · rw [if_neg hd] at h1; omega
+        · right; left
+          by_cases hk : skipShape r.re = true
+          · exact hk
+          · rw [if_neg hk] at h1; omega
+        · right; right; exact h1
+      · exact hf r hr
 
-/-! ### the three look-around identifier rules -/
+/-! ### the look-around identifier rules -/
+
+theorem identLookShape_inv (r : Re) (h : identLookShape r = true) :
+    ∃ A L, r = .cat (.set A) (.cat (.rep 0 none true (.set Gen.wordSet)) (.look true false 0 L)) ∧
+      (L = lookDotRe ∨ L = lookParenRe) := by
+  unfold identLookShape at h
+  split at h
+  · rename_i A W L
+    simp only [Bool.and_eq_true, Bool.or_eq_true, beq_iff_eq] at h
+    obtain ⟨hW, hL⟩ := h
+    subst hW
+    exact ⟨A, L, rfl, hL⟩
+  · simp at h
+
+theorem behindDotShape_inv (r : Re) (h : behindDotShape r = true) :
+    ∃ X, r = .cat (.look false false 1 (.set (cs 46))) X := by
+  unfold behindDotShape at h
+  split at h
+  · rename_i S X
+    simp only [beq_iff_eq] at h
+    subst h
+    exact ⟨X, rfl⟩
+  · simp at h
 
 theorem rep_set_range (E : Env) (W : CpSet) (g : Bool) (q : Nat) (c : Cp) (hq : E.s[q]? = some c) (hW : W.mem c = false) :
     ∀ fuel lo hi st st', st.pos ≤ q → st' ∈ repAux (derivs E (.set W)) g fuel lo hi st → st'.pos ≤ q := by
@@ -214,28 +264,17 @@ theorem look_behind_fail (E : Env) (S : CpSet) (st : St)
     · omega
     · simp [derivs, hp, hd, hm]
 
-theorem re18_eq : Gen.re18 = .cat (.set Gen.atom42) (.cat (.rep 0 none true (.set Gen.wordSet))
-    (.look true false 0 (.cat (.rep 0 none true (.set Gen.spaceSetRe)) (.set (cs 46))))) := by
-  have : Gen.atom10 = Gen.spaceSetRe := by decide +kernel
-  rw [← atom18_word, ← this]; rfl
-theorem re19_eq : Gen.re19 = .cat (.look false false 1 (.set (cs 46))) (.cat (.set Gen.atom42) (.rep 0 none true (.set Gen.wordSet))) := by
-  rw [← atom18_word]; rfl
-theorem re20_eq : Gen.re20 = .cat (.set Gen.atom42) (.cat (.rep 0 none true (.set Gen.wordSet)) (.look true false 0 (.set (cs 40)))) := by
-  rw [← atom18_word]; rfl
-
 /-- `[$#\w]` contains no `\s` character, no `(` and no `.` -/
 theorem wordTail_disjoint :
-    rangesDisjoint wordTailSet.ranges (Gen.spaceSetRe.ranges ++ [(40, 40), (46, 46)]) = true := by decide +kernel
+    rangesDisjoint wordTailSet.ranges (Gen.spaceSet.ranges ++ [(40, 40), (46, 46)]) = true := by decide +kernel
 
 theorem wordSet_sub_tail : Gen.wordSet.subsetOf wordTailSet = true := by decide +kernel
 
-theorem spaceSetRe_eq : Gen.spaceSetRe = Gen.spaceSet := by decide +kernel
-
 /-- what the look-aheads need of a character: not `\s`, not `(`, not `.` -/
-def Plain (x : Cp) : Prop := Gen.spaceSetRe.mem x = false ∧ (cs 40).mem x = false ∧ (cs 46).mem x = false
+def Plain (x : Cp) : Prop := Gen.spaceSet.mem x = false ∧ (cs 40).mem x = false ∧ (cs 46).mem x = false
 
 theorem plain_of_tail (x : Nat) (h : wordTailSet.mem x = true) : Plain x := by
-  have key : ∀ (Y : List (Nat × Nat)), (∀ r ∈ Y, r ∈ Gen.spaceSetRe.ranges ++ [(40, 40), (46, 46)]) →
+  have key : ∀ (Y : List (Nat × Nat)), (∀ r ∈ Y, r ∈ Gen.spaceSet.ranges ++ [(40, 40), (46, 46)]) →
       (CpSet.mk Y).mem x = false := by
     intro Y hY
     cases hm : (CpSet.mk Y).mem x with
@@ -252,20 +291,15 @@ theorem plain_of_tail (x : Nat) (h : wordTailSet.mem x = true) : Plain x := by
 
 theorem plain_of_delim (c : Nat) (h : WordDelim c) : Plain c := by
   obtain ⟨_, h2, h3, h4⟩ := h
-  refine ⟨by rw [spaceSetRe_eq]; exact h2, memF (cs_mem 40 c) h3, memF (cs_mem 46 c) h4⟩
+  refine ⟨h2, memF (cs_mem 40 c) h3, memF (cs_mem 46 c) h4⟩
 
-theorem start_L18 (x : Cp) (h : Plain x) :
-    start x (.cat (.rep 0 none true (.set Gen.spaceSetRe)) (.set (cs 46))) = .dead := by
-  simp [start, h.1, h.2.2]
+theorem start_L18 (x : Cp) (h : Plain x) : start x lookDotRe = .dead := by
+  simp [lookDotRe, start, h.1, h.2.2]
 
-theorem start_L20 (x : Cp) (h : Plain x) : start x (.set (cs 40)) = .dead := by
-  simp [start, h.2.1]
+theorem start_L20 (x : Cp) (h : Plain x) : start x lookParenRe = .dead := by
+  simp [lookParenRe, start, h.2.1]
 
 /-! ### the theorem -/
-
-theorem lookup_18 : (Gen.rules.take 47)[18]? = some Gen.rule18 := rfl
-theorem lookup_19 : (Gen.rules.take 47)[19]? = some Gen.rule19 := rfl
-theorem lookup_20 : (Gen.rules.take 47)[20]? = some Gen.rule20 := rfl
 
 /-- **a certified word before a delimiter is a token of the word rule.**  For every text, every position `p`: if the text at `p` reads
 `w c …` with `wordCert w`, `c` a delimiter (`WordDelim`), and the character before `p` (if any) is not `.`, then no earlier rule matches
@@ -339,25 +373,21 @@ theorem word_token (s : Array Cp) (p : Nat) (pre w rest : List Cp) (c : Cp)
       rw [hL x hpx] at this
       exact this st hx
     -- no earlier rule matches
-    have hpre : ∀ r ∈ Gen.rules.take 47, derivs (defaultCfg.env s) r.re ⟨p, []⟩ = [] := by
+    obtain ⟨front, back, hrules, hfront⟩ := checkFrom_spec _ c0 _ hchk
+    have hpre : ∀ r ∈ front, derivs (defaultCfg.env s) r.re ⟨p, []⟩ = [] := by
       intro r hr
-      obtain ⟨j, hj⟩ := List.getElem?_of_mem hr
-      rcases checkFrom_spec _ c0 _ 0 hchk j r hj with hd | hs | ha
+      rcases hfront r hr with hd | hs | ha
       · exact dead_at _ c0 _ hd p hg0
-      · simp only [skipIdx, Nat.zero_add, List.mem_cons, List.not_mem_nil, or_false] at hs
-        rcases hs with rfl | rfl | rfl
-        · rw [lookup_18] at hj; injection hj with hj; subst hj
-          show derivs _ Gen.re18 _ = []
-          rw [re18_eq]
-          exact identLook_dead _ _ _ _ p (run.length + 1) c hn hWc (by omega) (hLfail _ start_L18)
-        · rw [lookup_19] at hj; injection hj with hj; subst hj
-          show derivs _ Gen.re19 _ = []
-          rw [re19_eq, derivs_cat, look_behind_fail _ _ ⟨p, []⟩ hprev']
+      · simp only [skipShape, Bool.or_eq_true] at hs
+        rcases hs with hs | hs
+        · obtain ⟨A, L, hre, hL⟩ := identLookShape_inv _ hs
+          rw [hre]
+          rcases hL with rfl | rfl
+          · exact identLook_dead _ _ _ _ p (run.length + 1) c hn hWc (by omega) (hLfail _ start_L18)
+          · exact identLook_dead _ _ _ _ p (run.length + 1) c hn hWc (by omega) (hLfail _ start_L20)
+        · obtain ⟨X, hre⟩ := behindDotShape_inv _ hs
+          rw [hre, derivs_cat, look_behind_fail _ _ ⟨p, []⟩ hprev']
           rfl
-        · rw [lookup_20] at hj; injection hj with hj; subst hj
-          show derivs _ Gen.re20 _ = []
-          rw [re20_eq]
-          exact identLook_dead _ _ _ _ p (run.length + 1) c hn hWc (by omega) (hLfail _ start_L20)
       · have := aover_sound _ _ p c H r.re 0 [] ha ⟨p, []⟩ rfl
         cases hd : derivs (defaultCfg.env s) r.re ⟨p, []⟩ with
         | nil => rfl
@@ -367,8 +397,7 @@ theorem word_token (s : Array Cp) (p : Nat) (pre w rest : List Cp) (c : Cp)
     -- the word rule takes the whole word
     obtain ⟨more, hm⟩ := word_rule_maximal_munch (defaultCfg.env s) p c0 run (c :: rest) h0 hc0
       (fun x hx => hrun x hx) (by intro x hx; simp at hx; subst hx; exact hc.1)
-    have hsplit : defaultCfg.rules = Gen.rules.take 47 ++ Gen.rule47 :: Gen.rules.drop 48 := rfl
-    rw [hsplit, firstMatch_split _ _ Gen.rule47 _ p hpre _ more hm]
+    rw [hrules, firstMatch_split _ _ wordRule _ p hpre _ more hm]
     simp only [List.length_cons]
     have : p + 1 + run.length = p + (run.length + 1) := by omega
     rw [this]; rfl
